@@ -1,4 +1,6 @@
 import JunoModel.C15.ProofsBuf
+import JunoModel.C15.ProofsBound
+import JunoModel.C15.ProofsStackSim
 /-!
 C15 — property theorems (statements only; helper lemmas are in `Proofs*.lean`).
 Every theorem in this module is an obligation listed in evidence/C15.json with its axioms.
@@ -35,6 +37,27 @@ theorem upperBound_spec (p k : Key) :
 /-- Go returns `nil` exactly for prefixes made of `0xff` bytes only (including the empty one). -/
 theorem upperBound_nil_iff (p : Key) : upperBound p = none ↔ ∀ b ∈ p, b = 255 :=
   upperBound_none_iff p
+
+/-- The loop of `dbutils.UpperBound` as written in db/dbutils/bound.go (`upperBoundGo`: skip the trailing
+`0xff` bytes, CUT the prefix after the first other byte and increment it — what the driver answers with
+and the harness compares, exhaustively on all prefixes of length <= 3 over {00,01,fe,ff}, with the real
+function) computes the recursive `upperBound` the theorems are stated for. -/
+theorem upperBound_go_transcription (p : Key) : upperBoundGo p = upperBound p := upperBoundGo_eq p
+
+/-- For a prefix that is not all `0xff`: `UpperBound p` is above every key with the prefix AND it is the
+LEAST such byte string — any `u'` above every key with the prefix is `>=` it. (A bound that is merely large
+enough, e.g. one that keeps the trailing `0xff` bytes, lets keys of the next prefixes into a bounded
+iterator or a prefix range delete.) -/
+theorem upperBound_least (p u : Key) (hu : upperBound p = some u) :
+    (∀ k, hasPrefix k p = true → lexLt k u = true) ∧
+    (∀ u', (∀ k, hasPrefix k p = true → lexLt k u' = true) → lexLe u u' = true) :=
+  upperBound_least_aux p u hu
+
+/-- … and for an empty or all-`0xff` prefix (`nil`) there is no bound at all: whatever `u'` one takes, some
+key with the prefix is `>= u'`. -/
+theorem upperBound_unbounded (p : Key) (hu : upperBound p = none) (u' : Key) :
+    ∃ k, hasPrefix k p = true ∧ lexLe u' k = true :=
+  upperBound_unbounded_aux p hu u'
 
 /-! ## The backends give identical results -/
 
@@ -210,6 +233,72 @@ theorem prefix_size_exact (c : MemCfg) (content : KV) (p : Key) (u : Bool) :
     prefixSize pebImpl content p u = (out.length, sumSizes out) ∧
     prefixSize (memImpl c) content p u = (out.length, sumSizes out) := by
   exact ⟨prefixSize_eq pebSim content p u, prefixSize_eq (memSim c) content p u⟩
+
+/-! ## Stacks of wrappers over the contract (ModelStack.lean)
+
+Any number of `db.BufferBatch` / `db.SyncBatch` values over one indexed batch, over each other or side by
+side (core/deprecatedstate: one buffer per contract over ONE shared batch), with the store and the
+layers underneath changing between the buffered calls and the flush. -/
+
+/-- "Later operations win" through a STACK: `Get` through buffers (top-down) built by the call lists `Ls`
+over a batch with log `txn` over store `d` = lookup in `d` with `txn`, then the lists from the LOWEST
+buffer up, applied in order. -/
+theorem stack_reads_later_wins (d : KV) (txn : List LogOp) (Ls : List (List LogOp))
+    (hp : ∀ L ∈ Ls, pointLog L) (k : Key) :
+    stackLookup (fun k => (applyLog d txn).get k) (Ls.map bufBuild) k =
+      (applyLog d (txn ++ Ls.reverse.flatten)).get k :=
+  stackLookup_eq d txn Ls hp k
+
+/-- Side-by-side buffers over one batch, flushed in ANY order (`Ls` lists them in flush order): what the
+flushes issue on the batch (one call per map entry each) has, after the batch's log `txn` — WHATEVER it
+holds by then — and on every store, the effect of the buffers' call lists applied in flush order. -/
+theorem stack_flush_any_order (d : KV) (hd : Sorted d) (txn : List LogOp) (Ls : List (List LogOp))
+    (hp : ∀ L ∈ Ls, pointLog L) :
+    applyLog d (txn ++ (Ls.map (fun L => overlayOps (bufBuild L))).flatten) = applyLog d (txn ++ Ls.flatten) :=
+  siblings_any_order txn Ls hp d hd
+
+/-- A `Delete` stays a tombstone: after any calls `log` and then `Delete k`, the buffer answers "not found"
+for `k` whatever the layer underneath (`inner`) holds — now or later —, and `Flush` after ANY log `txn` of
+the wrapped batch (it may have gained `k` after the `Delete`) leaves `k` absent from every store. (The
+"cancel a pending put instead of recording the delete" shortcut breaks exactly this.) -/
+theorem buffer_tombstone_survives (log : List LogOp) (hp : pointLog log) (k : Key) :
+    (∀ inner : Key → Option Val, bufLookup (bufBuild (log ++ [.del k])) inner k = none) ∧
+    (∀ (d : KV), Sorted d → ∀ txn : List LogOp,
+      (applyLog d (txn ++ overlayOps (bufBuild (log ++ [.del k])))).get k = none) := by
+  have hp' : pointLog (log ++ [.del k]) := pointLog_snoc hp rfl
+  constructor
+  · intro inner
+    rw [bufLookup_eq, bufBuild_get]
+    have : lastCall k (log ++ [.del k]) = some none := by
+      induction log with
+      | nil => simp [lastCall]
+      | cons o rest ih =>
+        have := ih (fun x hx => hp x (List.mem_cons_of_mem _ hx)) (pointLog_snoc (fun x hx => hp x (List.mem_cons_of_mem _ hx)) rfl)
+        simp only [List.cons_append, lastCall, this]
+    rw [this]; rfl
+  · intro d hd txn
+    rw [logEquiv.append (logEquiv.rfl' txn) (overlay_logEquiv _ hp') d hd, ← List.append_assoc, applyLog_append]
+    simp [LogOp.apply, SMap.get_del]
+
+/-- REFINEMENT — a stack of buffers over a batch over a store behaves like the sequential application of
+the operations in flush order. For EVERY op sequence (`inStackContract`: store / batch / snapshot /
+iterator ops inside the documented contract, every call on every layer, every `lnew`/`lflush`; not
+`Size()`, see `stack_size_differs`): the model of the real wrappers over the contract (`sstep specImpl`:
+buffers are `updates` maps with nil tombstones, `Flush` issues one call per map entry in key order —
+Go: in map order, `buffer_flush_order_irrelevant`) gives exactly the outputs of the sequential machine
+`astep` (a buffer is the LIST of the calls made on it; `Get` = the last call for the key, else the layer
+underneath at that moment; `Flush` replays the list in call order on the layer underneath). -/
+theorem stack_refines_sequential (ops : List SOp) (h : inStackContract AWorld.init ops = true) :
+    srun specImpl SWorld.init ops = arun AWorld.init ops :=
+  srun_sim ops _ _ RS_init h
+
+/-- why `Size()` is outside `stack_refines_sequential`: the real buffer issues one call per KEY, the
+sequential machine one per CALL, so the byte counter of the wrapped batch differs after a flush -/
+theorem stack_size_differs :
+    srun specImpl SWorld.init [.base (.base (.newBatch true)), .lnew .buf (.batch 0), .lcall 0 (.put [1] [7]),
+      .lcall 0 (.put [1] [8]), .lflush 0, .base (.base (.bsize 0))] ≠
+    arun AWorld.init [.base (.base (.newBatch true)), .lnew .buf (.batch 0), .lcall 0 (.put [1] [7]),
+      .lcall 0 (.put [1] [8]), .lflush 0, .base (.base (.bsize 0))] := by decide
 
 /-! ## Batches -/
 
@@ -485,5 +574,43 @@ example : Sorted ([([], [9]), ([1, 255], [7]), ([2], [8])] : KV) := by
 example : RI (MIter.mk' [([1], [1])] [] false) (specImpl.imk [([1], [1])] [] false) ∧
     RPI (pebNewIter [([1], [1])] [] false) (specImpl.imk [([1], [1])] [] false) :=
   ⟨RI_mk _ _ _, RPI_mk _ _ _⟩
+
+/-! non-vacuity: UpperBound -/
+example : upperBoundGo [1, 2, 255] = some [1, 3] ∧ upperBoundGo [1, 255, 255] = some [2] ∧ upperBoundGo [255, 255] = none := by decide
+example : upperBound [1, 254, 255] = some [1, 255] ∧ hasPrefix [1, 254, 255, 9] [1, 254, 255] = true ∧
+    lexLt [1, 254, 255, 9] [1, 255] = true ∧ lexLt [1, 255] [1, 255, 255] = true := by decide
+example : upperBound [255] = none ∧ hasPrefix [255, 3] [255] = true := by decide
+
+/-! non-vacuity: stacks -/
+/-- two buffers over a batch that holds `Put 02`: the upper deletes what the lower puts -/
+example : stackLookup (fun k => (applyLog [([3], [3])] [.put [2] [2]]).get k)
+      ([[.put [1] [9], .del [1]], [.put [1] [1], .del [2]]].map bufBuild) [1] = none ∧
+    stackLookup (fun k => (applyLog [([3], [3])] [.put [2] [2]]).get k)
+      ([[.put [1] [9], .del [1]], [.put [1] [1], .del [2]]].map bufBuild) [2] = none ∧
+    stackLookup (fun k => (applyLog [([3], [3])] [.put [2] [2]]).get k)
+      ([[.put [1] [9], .del [1]], [.put [1] [1], .del [2]]].map bufBuild) [3] = some [3] := by decide
+example : ∀ L ∈ [[LogOp.put [1] [9], .del [1]], [.put [1] [1], .del [2]]], pointLog L := by
+  intro L hL; simp at hL; rcases hL with h | h <;> subst h <;> intro o ho <;> simp at ho <;> rcases ho with h | h <;> subst h <;> rfl
+/-- the tombstone scenario on the layered model: `Put k; Delete k` on the buffer while `k` is absent
+underneath, THEN `k` reaches the wrapped batch: the buffer still answers not-found and `Write` deletes it -/
+def tombstoneOps : List SOp :=
+  [.base (.base (.newBatch true)), .lnew .buf (.batch 0), .lcall 0 (.put [1] [10]), .lcall 0 (.del [1]),
+   .base (.base (.bput 0 [1] [11])), .lcall 0 (.get [1] false), .base (.base (.get (.batch 0) [1] false)),
+   .lcall 0 .write, .base (.base (.scan .db [] false))]
+example : srun specImpl SWorld.init tombstoneOps =
+    [.handle 0, .handle 0, .r .ok, .r .ok, .r .ok, .r .notfound, .r (.val [11]), .r .ok, .r (.list [])] := by decide
+example : inStackContract AWorld.init tombstoneOps = true := by decide
+/-- three buffers over one batch flushed 2, 0, 1; a `SyncBatch` in between; `Write` from the top of a chain -/
+def siblingOps : List SOp :=
+  [.base (.base (.put [1] [1])), .base (.base (.newBatch true)), .lnew .buf (.batch 0), .lnew .buf (.batch 0), .lnew .sync (.batch 0),
+   .lnew .buf (.layer 2), .lcall 0 (.put [1] [10]), .lcall 1 (.del [1]), .lcall 3 (.put [2] [13]), .lcall 3 (.get [1] false),
+   .lflush 3, .lflush 0, .lcall 3 (.get [1] false), .lflush 1, .lcall 2 (.scan [] false), .lcall 3 (.has [1]),
+   .lcall 3 .write, .base (.base (.scan .db [] false)), .lcall 3 (.put [5] [5]), .lcall 0 (.get [2] false)]
+example : inStackContract AWorld.init siblingOps = true := by decide
+example : srun specImpl SWorld.init siblingOps =
+    [.r .ok, .handle 0, .handle 0, .handle 1, .handle 2, .handle 3, .r .ok, .r .ok, .r .ok, .r (.val [1]),
+     .r .ok, .r .ok, .r (.val [10]), .r .ok, .r (.list [([2], [13])]), .r .panic,
+     .r .ok, .r (.list [([2], [13])]), .r .panic, .r .errClosed] := by decide
+example : Sorted ([([3], [3])] : KV) := by simp [Sorted]
 
 end Juno.C15.Props
